@@ -42,7 +42,13 @@ class SPath:
     defaults: Dict[Tuple[str, str], Term] = field(default_factory=dict)  # slot -> default Z of the last d.get(k, Z) / d.setdefault(k, Z) read
 
     def conds(self) -> List[Term]:
-        return [e[1] if e[2] else mk_not(e[1]) for e in self.events if e[0] == "cond"]
+        """Branch conditions taken on the path, polarity applied, top-level conjunctions flattened."""
+        out: List[Term] = []
+        for e in self.events:
+            if e[0] == "cond":
+                c = e[1] if e[2] else mk_not(e[1])
+                out.extend(c[1] if c[0] == "and" else [c])
+        return out
 
     def stores(self) -> List[Tuple[Any, ...]]:
         return [e for e in self.events if e[0] == "store"]
@@ -52,7 +58,8 @@ class SPath:
 
 
 class SymExec:
-    def __init__(self, norm: Norm, ctx: Ctx, max_paths: int = 4000) -> None:
+    def __init__(self, norm: Norm, ctx: Ctx, max_paths: int = 4000, inline_helpers: bool = True) -> None:
+        self.inline_helpers = inline_helpers
         self.norm = norm
         self.base_ctx = ctx
         self.max_paths = max_paths
@@ -152,7 +159,7 @@ class SymExec:
     # ------------------------------------------------------- helper inlining
     def _callee(self, call: ast.Call, st: SPath):
         """Internal function a call statement resolves to, when it is a small *checking helper* (contains a raise, no loops)."""
-        if self.depth >= 2:
+        if self.depth >= 2 or not self.inline_helpers:
             return None
         ctx = self.base_ctx.child(vars=dict(self.base_ctx.vars, **st.vars), subst_locals=False)
         try:
